@@ -65,7 +65,7 @@ fn gm_from_domains(ch: &mut Chooser, table: &GmTable) -> GmData {
         variance,
         priority2,
         identity: GM_IDS[k],
-        steps_removed: *ch.pick(S_WORK, &[0u16, 1, 2, 3, 254]),
+        steps_removed: *ch.pick(S_WORK, &[0u16, 1, 2, 3, 254, 255, 256]),
         utc_offset: 37,
         time_source: *ch.pick(S_WORK, &[0xa0u8, 0x20]),
         flags: *ch.pick(S_WORK, &[0u16, flag::UTC_VALID | flag::PTP_TIMESCALE, flag::LEAP61 | flag::TIME_TRACEABLE]),
@@ -256,14 +256,30 @@ impl Check for C05 {
         }
         // ---- reference model
         let own_cmp = Cmp::own(spec.id, spec.priority1, spec.class, spec.accuracy, spec.variance, spec.priority2);
+        // What a master stands for in the final run: its most recent Announce that is qualified at all
+        // (stepsRemoved < 255). An Announce with stepsRemoved >= 255 is not registered, so a master
+        // whose round-2 Announces carry 255+ is still represented by its two round-1 Announces (they
+        // are inside the four-interval window) - or not at all if it was silent in round 1.
+        let eff: Vec<Option<GmData>> = masters
+            .iter()
+            .map(|m| {
+                if m.gm2.steps_removed < 255 {
+                    Some(m.gm2.clone())
+                } else if m.in_round1 && m.gm1.steps_removed < 255 {
+                    Some(m.gm1.clone())
+                } else {
+                    None
+                }
+            })
+            .collect();
         let mut erbest: Vec<Option<(Cmp, usize)>> = vec![None; np]; // (data, master index)
         let mut tie_somewhere = false;
         for p in 0..np {
             let cands: Vec<(Cmp, usize)> = masters
                 .iter()
                 .enumerate()
-                .filter(|(_, m)| m.port == p && m.gm2.steps_removed < 255 && m.pid.clock != spec.id)
-                .map(|(i, m)| (Cmp::from_announce(&m.gm2.body(), m.pid, Pid::new(spec.id, (p + 1) as u16)), i))
+                .filter(|(i, m)| m.port == p && eff[*i].is_some() && m.pid.clock != spec.id)
+                .map(|(i, m)| (Cmp::from_announce(&eff[i].as_ref().unwrap().body(), m.pid, Pid::new(spec.id, (p + 1) as u16)), i))
                 .collect();
             let cmps: Vec<Cmp> = cands.iter().map(|c| c.0).collect();
             if let Some((bi, tie)) = model::best_of(&cmps, true) {
@@ -342,7 +358,15 @@ impl Check for C05 {
         // clock at equal stepsRemoved: the standard breaks the tie on the sender's port number, statime
         // treats it as "error-2" and falls back to message age) there is no unique reference outcome;
         // those cases are judged by the order-independence oracle above only.
-        let unique = !(tie_somewhere || same_clock_senders);
+        // A master that only its round-1 Announces still speak for (its newer ones are unqualified) has
+        // effectively fallen silent: whether its older messages still qualify it at this run depends on
+        // how many of them earlier BMCA runs consumed, which the statement leaves open ("stops being
+        // considered within a bounded number of intervals"). No unique reference outcome then.
+        let leftover_only = masters.iter().any(|m| m.gm2.steps_removed >= 255 && m.in_round1 && m.gm1.steps_removed < 255);
+        if leftover_only {
+            out.probe("candidate_known_only_from_older_announces_reference_comparison_skipped");
+        }
+        let unique = !(tie_somewhere || same_clock_senders || leftover_only);
         if !unique {
             out.probe("tie_between_candidates_reference_comparison_skipped");
         }
@@ -370,9 +394,10 @@ impl Check for C05 {
             }
         } else if let Some(mi) = any_s1 {
             let m = &masters[mi];
-            let mut f = announce_frame(m.pid, 0, &m.gm2, 0, 0, 0);
-            f.hdr.flags = m.gm2.flags;
-            let mut want = view_of_announce(&f.hdr, &m.gm2.body());
+            let g = eff[mi].clone().unwrap_or_else(|| m.gm2.clone());
+            let mut f = announce_frame(m.pid, 0, &g, 0, 0, 0);
+            f.hdr.flags = g.flags;
+            let mut want = view_of_announce(&f.hdr, &g.body());
             want.steps_removed += 1;
             if out_a.view != want || out_a.parent != m.pid {
                 out.violate(
@@ -385,9 +410,10 @@ impl Check for C05 {
         }
         // the selected parent is never worse than any other qualified candidate
         if let (Some(sp), Some((bc, _, _))) = (out_a.states.iter().position(|s| *s == PState::Slave), ebest) {
-            if let Some(m) = masters.iter().find(|m| m.pid == out_a.parent) {
-                let c = Cmp::from_announce(&m.gm2.body(), m.pid, Pid::new(spec.id, (sp + 1) as u16));
-                if model::compare(&bc, &c, true).a_wins() && !(tie_somewhere || same_clock_senders) {
+            if let Some((mi, m)) = masters.iter().enumerate().find(|(_, m)| m.pid == out_a.parent) {
+                let g = eff[mi].clone().unwrap_or_else(|| m.gm2.clone());
+                let c = Cmp::from_announce(&g.body(), m.pid, Pid::new(spec.id, (sp + 1) as u16));
+                if model::compare(&bc, &c, true).a_wins() && unique {
                     out.violate("C05", "C05.selected_parent_worse_than_candidate", key.clone(), format!("parent {:?} compares worse than qualified candidate {:?}", c, bc));
                 }
             }
